@@ -350,6 +350,9 @@ class DimSysProxy:
 
 # ----------------------------------------------------------------------
 # symbolic quantities
+_VQ_COUNT = itertools.count()
+
+
 def make_quantity(scale, dimension, display_symbol=None):
     """A real symplyphysics Quantity whose scale factor is a sympy expression
     over VS symbols and whose dimension may be a SymDim.  Built with the real
@@ -359,6 +362,8 @@ def make_quantity(scale, dimension, display_symbol=None):
     from sympy.physics.units.systems.si import SI
     from symplyphysics.core.symbols.quantities import Quantity
     from symplyphysics.core.symbols.symbols import DimensionSymbol
+    # a display name without "QTY" keeps Quantity._sympystr (used by the repo's error messages) off dimension_to_si_unit
+    display_symbol = display_symbol or f"vq{next(_VQ_COUNT)}"
     q = Quantity.__new__(Quantity, display_symbol=display_symbol)
     DimensionSymbol.__init__(q, display_symbol or str(q.name), dimension)
     SI.set_quantity_dimension(q, dimension)
@@ -542,6 +547,8 @@ def standard_bindings():
         (CQ, "is_any_dimension", factory(lifted_is_any_dimension)), (DM, "is_any_dimension", factory(lifted_is_any_dimension)),
         (CQ, "is_number", factory(lifted_is_number)), (DM, "is_number", factory(lifted_is_number)),
         (QT, "complex", lifted_complex),
+        # printing only (error messages, SymPy sort keys): keep Quantity.__str__ off dimension_to_si_unit for symbolic dimensions
+        (QT.Quantity, "_sympystr", lambda self, p: str(self.display_name)),
     ]
     return b
 
@@ -551,4 +558,5 @@ STANDARD_STUBS = [
     "is_any_dimension(f) -> fork on value(f) == 0 for expressions over verification scalars, original otherwise",
     "is_number(v) -> True for expressions over verification scalars, original otherwise",
     "complex() in core.symbols.quantities namespace -> accepts verification-scalar expressions",
+    "Quantity._sympystr -> display name only (formatting is not the subject; avoids SI-unit pretty printing of symbolic dimensions)",
 ]
